@@ -213,7 +213,9 @@ W(x) == WMk(x.s, x.d, ZOfInt(x.sc))
 FmtPrecRelOK(kind, a, N, t, c) ==
   LET pv == ParseValue(t) IN
   CASE kind = "display" ->
-         IF a.d = <<>> THEN pv.d = <<>> /\ (~HasExpMarker(t) => TextFracDigits(t) = N)
+         IF a.d = <<>>            \* zero: an integer zero (scale <= 0) obeys the padding limit like any integer
+         THEN /\ pv.d = <<>>
+              /\ (a.sc <= 0 /\ (IF N > 0 THEN N + 1 ELSE 0) > c.maxPad) \/ (~HasExpMarker(t) => TextFracDigits(t) = N)
          ELSE IF a.sc <= 0
          THEN IF (-a.sc) + (IF N > 0 THEN N + 1 ELSE 0) <= c.maxPad
               THEN ~HasExpMarker(t) /\ TextFracDigits(t) = N /\ pv = WMk(a.s, Shl(a.d, N - a.sc), ZOfInt(N))
